@@ -107,6 +107,10 @@ def gen_case(rng, i):
             # boundary-seeking: the corners of the admissible unit changes as often as its interior
             pick = lambda lo, hi: float([lo * 1.0001, hi * 0.9999, np.exp(rng.uniform(np.log(lo), np.log(hi)))][rng.integers(3)])
             sfac, cfac = pick(s_lo, s_hi), pick(c_lo, c_hi)
+    # range op: in one case of three the target is the capture of a SPARSE intensity vector (one or two sources at their
+    # upper bound, the others at the lower bound): many basic solutions of the enumeration then sit exactly on a bound
+    k_sp = int(rng.integers(1, 3))
+    s_["sparse_idx"] = [int(j) for j in rng.permutation(n)[:k_sp]] if rng.integers(3) == 0 else None
     s_.update({"B": Bm, "op": op, "s": sfac, "c": cfac, "internal": bool(rng.integers(3) == 0)})
     return s_
 
@@ -184,8 +188,24 @@ def chk_case(inp, c):
         c.note("membership", {"orig": g1, "twin": g2})
     elif op == "range":
         b = B[0]
-        ok_a, r1 = c.try_call(e1.range_of_solutions, b.copy())
-        ok_b, r2 = c.try_call(e2.range_of_solutions, (b * cc).copy())
+        rkw, rtol = {}, 1e-6
+        if inp.get("sparse_idx") is not None and finite:
+            c.cell("range:sparse-target")
+            xs = lbv.copy()
+            xs[inp["sparse_idx"]] = ubv[inp["sparse_idx"]]
+            b = Mt @ xs + c0
+            # such a target may lie on the gamut boundary, where the membership pre-test of range_of_solutions may go either
+            # way in either twin (error='ignore': no raise).  Both twins enumerating: exact comparison.  Both best-fitting:
+            # solver accuracy on an ill-conditioned boundary fit.  One of each: not comparable (counted, not judged).
+            rkw = {"error": "ignore"}
+            ok1, g1 = c.try_call(e1.in_gamut, b.copy())
+            ok2, g2 = c.try_call(e2.in_gamut, (b * cc).copy())
+            if not (ok1 and ok2) or bool(np.all(g1)) != bool(np.all(g2)):
+                c.cell("range:sparse-target-paths-differ")
+                c.unmet("sparse target on the gamut boundary: the twins answer through different paths (enumeration / best fit)")
+            rtol = 1e-6 if bool(np.all(g1)) else 5e-2
+        ok_a, r1 = c.try_call(e1.range_of_solutions, b.copy(), **rkw)
+        ok_b, r2 = c.try_call(e2.range_of_solutions, (b * cc).copy(), **rkw)
         if not ok_a and not ok_b:
             c.cell("range:both-raise")        # e.g. the (clipped) target is outside the gamut in both unit systems
             judge(type(r1) is type(r2), "the range query fails in the same way in both unit systems", "range-raise-kind-differs")
@@ -199,8 +219,8 @@ def chk_case(inp, c):
         d = max(float(np.max(np.abs(np.asarray(r2[0]) * s - np.asarray(r1[0])) / rngx)),
                 float(np.max(np.abs(np.asarray(r2[1]) * s - np.asarray(r1[1])) / rngx)))
         if asserted:
-            c.margin("range equivariance / 1e-6", d, 1e-6)
-        judge(d <= 1e-6, "solution ranges scale by exactly 1/s", "range-not-equivariant", rel_dev=d)
+            c.margin("range equivariance / tol", d, rtol)
+        judge(d <= rtol, "solution ranges scale by exactly 1/s", "range-not-equivariant", rel_dev=d)
         c.note("range_rel_dev", d)
     else:
         tight = op == "fit-tight"
